@@ -27,39 +27,51 @@ def _strip(s):
 
 
 def _check(spec):
-    from stereomolgraph.experimental import JSONHandler
     for idmap in IDMAPS:
         sp = spec if idmap is None else tmpl.rename(spec, idmap)
         sp = dict(sp)
         sp["atoms"] = [(a, el, {}) for a, el, _ in sp["atoms"]]
         sp["bonds"] = [(a, b, r, {}) for a, b, r, _ in sp["bonds"]]
-        g = gl.build(sp)
-        s0 = gl.snap(g)
-        try:
-            txt = JSONHandler.json_serialize(g)
-        except Exception as e:
-            return f"json_serialize raised {type(e).__name__}: {e}"
-        if gl.diff(gl.snap(g), s0):
-            return "json_serialize changed the graph"
-        try:
-            h = JSONHandler.json_deserialize(txt)
-        except Exception as e:
-            return f"json_deserialize raised {type(e).__name__}: {e} on {txt[:200]}"
-        if type(h) is not type(g):
-            return f"round trip changed the class: {type(g).__name__} -> {type(h).__name__}"
-        d = gl.diff(_strip(gl.snap(h)), _strip(s0))
-        if d:
-            return f"round trip not identical: {d}"
-        try:
-            if not (h == g and g == h):
-                return "round-tripped graph != original"
-            if hash(h) != hash(g):
-                return "round-tripped graph has a different hash"
-        except Exception as e:
-            return f"comparing the round-tripped graph raised {type(e).__name__}: {e}"
-        c = gl.coherent(h)
-        if c:
-            return f"deserialised graph incoherent: {c}"
+        orders = (False, True) if sp["cls"] == "SCRG" and (sp.get("achg") or sp.get("bchg")) else (False,)
+        for changes_first in orders:
+            msg = _roundtrip(sp, changes_first)
+            if msg:
+                return msg
+    return None
+
+
+def _roundtrip(sp, changes_first):
+    from stereomolgraph.experimental import JSONHandler
+    g = gl.build(sp, changes_first=changes_first)
+    s0 = gl.snap(g)
+    d = gl.diff(_strip(s0), _strip(gl.model_from_spec(sp).snap()))
+    if d:
+        return f"graph built from the spec (stereo changes set {'before' if changes_first else 'after'} the static descriptors) differs from the model: {d}"
+    try:
+        txt = JSONHandler.json_serialize(g)
+    except Exception as e:
+        return f"json_serialize raised {type(e).__name__}: {e}"
+    if gl.diff(gl.snap(g), s0):
+        return "json_serialize changed the graph"
+    try:
+        h = JSONHandler.json_deserialize(txt)
+    except Exception as e:
+        return f"json_deserialize raised {type(e).__name__}: {e} on {txt[:200]}"
+    if type(h) is not type(g):
+        return f"round trip changed the class: {type(g).__name__} -> {type(h).__name__}"
+    d = gl.diff(_strip(gl.snap(h)), _strip(s0))
+    if d:
+        return f"round trip not identical: {d}"
+    try:
+        if not (h == g and g == h):
+            return "round-tripped graph != original"
+        if hash(h) != hash(g):
+            return "round-tripped graph has a different hash"
+    except Exception as e:
+        return f"comparing the round-tripped graph raised {type(e).__name__}: {e}"
+    c = gl.coherent(h)
+    if c:
+        return f"deserialised graph incoherent: {c}"
     return None
 
 
